@@ -16,7 +16,7 @@
      12. statistics are exact; dead iff unreferenced; timing of removal
      13. transparency
      14. refuted statements and replayed tests *)
-From LsmV Require Import Model.Entry Model.Stream Model.Blob. (* TODO re-add Proofs.Stream *)
+From LsmV Require Import Model.Entry Model.Stream Model.Blob Proofs.Newest Proofs.Stream.
 From Coq Require Import Permutation.
 Open Scope N_scope.
 Local Arguments N.add : simpl never.
@@ -1325,9 +1325,9 @@ Lemma find_frame_add_new fs id fr :
   find_frame (add_frame fs id fr) id (fr_off fr) = Some fr.
 Proof.
   unfold find_frame, find_file. induction fs as [|y fs IH]; intros H; cbn [add_frame find].
-  - cbn [bf_id frames find]. now rewrite !N.eqb_refl.
+  - cbn [bf_id frames find]. rewrite N.eqb_refl. cbn [frames find]. now rewrite N.eqb_refl.
   - destruct (bf_id y =? id) eqn:E.
-    + cbn [find bf_id frames]. rewrite N.eqb_refl. apply N.eqb_eq in E.
+    + cbn [find bf_id frames]. rewrite N.eqb_refl. cbn [frames]. apply N.eqb_eq in E.
       assert (find (fun x => fr_off x =? fr_off fr) (frames y) = None) as FN.
       { destruct (find _ (frames y)) as [x|] eqn:F; [|reflexivity].
         apply find_frame_in in F. destruct F as [HI Eo]. exfalso.
@@ -1386,7 +1386,8 @@ Section Writer.
     { destruct (target <=? bw_off w + frame_span k disk); inversion HW; auto. }
     subst h. cbn [fst snd]. split; [reflexivity|].
     assert (find_frame fs (bw_id w) (bw_off w) = Some fr) as FN.
-    { apply (find_frame_add_new (bw_files w) (bw_id w) fr).
+    { change (bw_off w) with (fr_off fr). unfold fs.
+      apply (find_frame_add_new (bw_files w) (bw_id w) fr).
       intros bf x Hb Ei Hx. specialize (H5 bf x Hb Ei Hx). cbn [fr fr_off]. lia. }
     assert (forall f o x, find_frame (bw_files w) f o = Some x -> find_frame fs f o = Some x) as MONO
       by (intros; now apply find_frame_add_mono).
@@ -1396,15 +1397,15 @@ Section Writer.
     { intros bf HI. destruct (add_frame_in _ _ _ _ HI) as [H|(A & _)]; [auto | lia]. }
     assert (NoDup (map bf_id fs)) as ND.
     { unfold fs. rewrite add_frame_ids. destruct (memN (bw_id w) (map bf_id (bw_files w))) eqn:M;
-        [exact H3|]. apply memN_false in M. apply NoDup_app_intro'; [exact H3 | repeat constructor |].
+        [exact H3|]. apply memN_false in M. apply NoDup_app_intro'; [exact H3 | constructor; [intros [] | constructor] |].
       intros x HA [<-|[]]. exact (M HA). }
     assert (forall bf, In bf fs -> file_ok_P bf) as OK.
     { intros bf HI. destruct (add_frame_in _ _ _ _ HI) as [H|(A & [(b & B & C & D)|B])]; [auto| |].
       - unfold file_ok_P. rewrite D. split; [destruct (frames b); discriminate|].
-        rewrite map_app. apply NoDup_app_intro'; [apply (H4 b B) | repeat constructor |].
+        rewrite map_app. apply NoDup_app_intro'; [apply (H4 b B) | constructor; [intros [] | constructor] |].
         intros x HA [<-|[]]. apply in_map_iff in HA. destruct HA as (y & Ey & Hy).
         specialize (H5 b y B C Hy). cbn [fr fr_off] in Ey. lia.
-      - unfold file_ok_P. rewrite B. split; [discriminate | repeat constructor; intros []]. }
+      - unfold file_ok_P. rewrite B. split; [discriminate | constructor; [intros [] | constructor]]. }
     assert (forall bf x, In bf fs -> bf_id bf = bw_id w -> In x (frames bf) ->
                          fr_off x < bw_off w + frame_span k disk) as OFF.
     { intros bf x HI Ei Hx. unfold frame_span, BLOB_HEADER_LEN.
@@ -1440,3 +1441,634 @@ Section Writer.
     - intros bf x HI Ei. specialize (IDS bf HI). lia.
   Qed.
 End Writer.
+
+(** * 7. Flush *)
+
+(** how the table writer cuts an entry list into tables: nothing lost, nothing
+    reordered, fresh distinct table ids *)
+Definition split_ok (split : list entry -> list (N * list entry)) (old : list (N * list entry)) : Prop :=
+  forall l, concat (map snd (split l)) = l /\ NoDup (map fst (split l)) /\
+            (forall t, In t (split l) -> ~ In (fst t) (map fst old)).
+
+Lemma split_ok_tptrs split old l : split_ok split old -> tptrs (split l) = ptrs l.
+Proof. intros H. rewrite tptrs_concat. now rewrite (proj1 (H l)). Qed.
+
+Lemma split_ok_in split old l t e : split_ok split old -> In t (split l) -> In e (snd t) -> In e l.
+Proof.
+  intros H Ht He. rewrite <- (proj1 (H l)). apply in_concat. exists (snd t).
+  split; [now apply in_map | exact He].
+Qed.
+
+Definition big_enough (thr : N) (fr : frame) : Prop := thr <= lenN (fr_val fr).
+
+Lemma separate_inv thr target lo : forall items w P ents w',
+  WInv (big_enough thr) lo w P ->
+  (forall e, In e items -> ty e <> Ind) ->
+  separate thr target w items = (ents, w') ->
+  (forall e, In e ents -> wf_ind e = true) /\
+  (forall f o x, find_frame (bw_files w) f o = Some x -> find_frame (bw_files w') f o = Some x) /\
+  exists P', WInv (big_enough thr) lo w' P' /\ Permutation P' (ptrs ents ++ P).
+Proof.
+  induction items as [|e r IH]; intros w P ents w' WI NI HS; cbn [separate] in HS.
+  - inversion HS; subst. split; [intros e []|]. split; [auto|]. exists P. split; [exact WI | apply Permutation_refl].
+  - assert (forall x, In x r -> ty x <> Ind) as NI' by (intros x Hx; apply NI; now right).
+    destruct (is_tomb e) eqn:TB.
+    + destruct (separate thr target w r) as [o w2] eqn:HR. inversion HS; subst.
+      destruct (IH w P o w' WI NI' HR) as (WF & MONO & P' & WI' & PP).
+      split; [|split; [exact MONO|]].
+      * intros x [<-|Hx]; [|auto]. unfold wf_ind. cbn [ty].
+        unfold is_tomb in TB. destruct (ty e); try discriminate; reflexivity.
+      * exists P'. split; [exact WI'|]. rewrite ptrs_cons.
+        assert (ptr_of (mkE (ukey e) (seq e) (ty e) []) = None) as ->.
+        { unfold ptr_of. cbn [ty val]. destruct (ty e); reflexivity. }
+        exact PP.
+    + destruct (thr <=? lenN (val e)) eqn:BIG.
+      * destruct (bw_write target w (ukey e) (seq e) (val e) (lenN (val e))) as [w1 h] eqn:HW.
+        destruct (separate thr target w1 r) as [o w2] eqn:HR. inversion HS; subst.
+        apply N.leb_le in BIG.
+        destruct (bw_write_inv (big_enough thr) lo target w P _ _ _ _ w1 h WI HW BIG)
+          as (Eh & FN & MONO1 & WI1).
+        destruct (IH w1 _ o w' WI1 NI' HR) as (WF & MONO & P' & WI' & PP).
+        split; [|split].
+        -- intros x [<-|Hx]; [reflexivity | auto].
+        -- intros f o' x Hx. apply MONO. apply MONO1. exact Hx.
+        -- exists P'. split; [exact WI'|]. rewrite ptrs_cons, ptr_of_mk_ind.
+           eapply perm_trans; [exact PP|]. cbn [app]. apply Permutation_sym, Permutation_middle.
+      * destruct (separate thr target w r) as [o w2] eqn:HR. inversion HS; subst.
+        destruct (IH w P o w' WI NI' HR) as (WF & MONO & P' & WI' & PP).
+        assert (ptr_of e = None) as PN.
+        { unfold ptr_of. pose proof (NI e (or_introl eq_refl)) as T. destruct (ty e); congruence. }
+        split; [|split; [exact MONO|]].
+        -- intros x [<-|Hx]; [|auto]. unfold wf_ind. pose proof (NI e (or_introl eq_refl)) as T.
+           destruct (ty e); congruence.
+        -- exists P'. split; [exact WI'|]. rewrite ptrs_cons, PN. exact PP.
+Qed.
+
+Lemma rest_tables_nil tabs : rest_tables [] tabs = tabs.
+Proof. unfold rest_tables. apply filter_all_true. reflexivity. Qed.
+
+(** a flush is a merge of no tables that drops nothing *)
+Lemma flush_as_merge v newtabs files :
+  mkBV (newtabs ++ b_tables v) (b_blobs v ++ files) (b_gc v) = with_merge v [] newtabs [] files [].
+Proof.
+  unfold with_merge. rewrite rest_tables_nil. cbn [is_nil negb orb].
+  f_equal. rewrite orb_false_r. destruct files as [|f fs]; cbn [is_nil negb].
+  - now rewrite app_nil_r.
+  - symmetry. apply filter_all_true. reflexivity.
+Qed.
+
+Theorem blob_flush_inv d thr target W nid split mem v :
+  BInvG d v -> ids_below nid v ->
+  (forall e, In e mem -> ty e <> Ind) ->
+  split_ok split (b_tables v) ->
+  BInvG d (fst (blob_flush thr target W nid split mem v)) /\
+  ids_below (snd (blob_flush thr target W nid split mem v))
+            (fst (blob_flush thr target W nid split mem v)) /\
+  nid <= snd (blob_flush thr target W nid split mem v) /\
+  (0 < thr -> frames_pos (b_blobs v) ->
+   frames_pos (b_blobs (fst (blob_flush thr target W nid split mem v)))) /\
+  b_gc (fst (blob_flush thr target W nid split mem v)) = b_gc v.
+Proof.
+  intros I IB NI SP. unfold blob_flush.
+  destruct (run_stream W false no_filter mem) as [out lg] eqn:HR.
+  destruct (separate thr target (bw_new nid) out) as [ents w] eqn:HS.
+  unfold bw_finish. cbn [fst snd].
+  assert (forall e, In e out -> ty e <> Ind) as NI'.
+  { intros e He. apply NI. eapply cstream_out_in; eauto. }
+  destruct (separate_inv thr target nid out (bw_new nid) [] ents w (WInv_new _ nid) NI' HS)
+    as (WF & _ & P' & WI & PP).
+  rewrite app_nil_r in PP.
+  destruct WI as [W1 W2 W3 W4 W5 W6 W7 W8 W9].
+  split; [|split; [|split; [|split]]].
+  - rewrite flush_as_merge.
+    apply (with_merge_inv d v [] (split ents) [] (bw_files w) [] nid [] [] (vptrs v) P'); auto.
+    + apply (SP ents).
+    + apply (SP ents).
+    + intros t e Ht He. apply WF. eapply split_ok_in; eauto.
+    + rewrite rest_tables_nil, (split_ok_tptrs _ _ _ SP). rewrite <- vptrs_tptrs.
+      apply Permutation_app_tail. apply Permutation_sym. exact PP.
+    + intros bf HI. split; [apply (W2 bf HI) | apply (W4 bf HI)].
+    + intros f [].
+  - destruct IB as [B1 B2]. split; cbn [b_blobs b_gc].
+    + intros bf HI. apply in_app_or in HI. destruct HI as [HI|HI].
+      * specialize (B1 bf HI). lia.
+      * specialize (W2 bf HI). lia.
+    + intros f Hf. specialize (B2 f Hf). lia.
+  - lia.
+  - intros TP POS bf fr Hb Hf. cbn [b_blobs] in Hb. apply in_app_or in Hb. destruct Hb as [Hb|Hb].
+    + eapply POS; eauto.
+    + specialize (W9 bf fr Hb Hf). unfold big_enough in W9. lia.
+  - reflexivity.
+Qed.
+
+(** * 8b. The stream's accounting, in terms of pointers; standard merge *)
+
+(** the filter never hands back something that decodes as a pointer *)
+Definition flt_noptr (flt : entry -> verdict) : Prop :=
+  forall e t v, flt e = Replace t v -> ptr_of (mkE (ukey e) (seq e) t v) = None.
+(** the plain filters: never an indirection *)
+Definition flt_plain (flt : entry -> verdict) : Prop :=
+  forall e t v, flt e = Replace t v -> t <> Ind.
+
+Lemma flt_plain_noptr flt : flt_plain flt -> flt_noptr flt.
+Proof.
+  intros H e t v Hf. specialize (H e t v Hf). unfold ptr_of. cbn [ty]. destruct t; congruence.
+Qed.
+
+Lemma no_filter_plain : flt_plain no_filter.
+Proof. intros e t v H. discriminate. Qed.
+
+(** every pointer of the input is either emitted unchanged or reported to the callback,
+    exactly once; nothing else is *)
+Lemma stream_ptrs W evict flt l out log :
+  flt_noptr flt -> run_stream W evict flt l = (out, log) ->
+  Permutation (ptrs l) (ptrs out ++ ptrs log).
+Proof.
+  intros NP HR.
+  destruct (cstream_log_exact _ _ _ _ _ _ HR) as (kept & silent & repl & P1 & TS & P2 & FR & _).
+  assert (ptrs repl = []) as ER.
+  { clear P2. induction repl as [|h repl IH]; [reflexivity|].
+    inversion FR as [|? ? Hh FR']; subst. rewrite ptrs_cons, (IH FR').
+    destruct Hh as (e & t & v & _ & _ & Hf & ->). now rewrite (NP e t v Hf). }
+  eapply perm_trans; [apply ptrs_perm; exact P1|].
+  rewrite !ptrs_app, (ptrs_tombs _ TS), app_nil_r.
+  apply Permutation_app_tail. apply Permutation_sym.
+  eapply perm_trans; [apply ptrs_perm; exact P2|]. now rewrite ptrs_app, ER, app_nil_r.
+Qed.
+
+Lemma in_le_sumN x l : In x l -> x <= sumN l.
+Proof.
+  induction l as [|y l IH]; [contradiction|]. cbn [sumN fold_right]. fold (sumN l).
+  intros [->|H]; [lia | specialize (IH H); lia].
+Qed.
+
+Lemma ids_below_ex v : exists nid, ids_below nid v.
+Proof.
+  exists (sumN (map bf_id (b_blobs v)) + sumN (map fst (b_gc v)) + 1). split.
+  - intros bf HI. pose proof (in_le_sumN _ _ (in_map bf_id _ _ HI)). lia.
+  - intros f HI. pose proof (in_le_sumN _ _ HI). lia.
+Qed.
+
+Lemma dead_ids_below nid v f : ids_below nid v -> In f (dead_ids v) -> f < nid.
+Proof.
+  intros [B _] H. apply in_dead_ids in H. destruct H as (bf & HI & _ & <-). auto.
+Qed.
+
+Lemma wf_ind_not_ind e : ty e <> Ind -> wf_ind e = true.
+Proof. unfold wf_ind. destruct (ty e); congruence. Qed.
+
+Theorem blob_merge_standard_inv d W evict flt tids split v :
+  BInvG d v -> frames_pos (b_blobs v) -> flt_plain flt -> split_ok split (b_tables v) ->
+  BInvG d (blob_merge_standard W evict flt tids split v).
+Proof.
+  intros I POS FP SP. unfold blob_merge_standard.
+  destruct (negb (tids_known tids v)); [exact I|].
+  destruct (run_stream W evict flt (merge_input tids v)) as [out log] eqn:HR.
+  destruct (ids_below_ex v) as (nid & IB).
+  set (R := rest_tables tids (b_tables v)).
+  pose proof (stream_ptrs _ _ _ _ _ _ (flt_plain_noptr _ FP) HR) as PS.
+  assert (Permutation (vptrs v) (ptrs log ++ [] ++ (ptrs out ++ tptrs R))) as PV.
+  { eapply perm_trans; [apply (vptrs_split tids v)|]. fold R. cbn [app].
+    eapply perm_trans; [apply Permutation_app_tail; apply Permutation_sym; apply merge_input_ptrs|].
+    eapply perm_trans; [apply Permutation_app_tail; exact PS|].
+    rewrite <- app_assoc. eapply perm_trans; [apply Permutation_app_swap_app|]. apply Permutation_refl. }
+  apply (with_merge_inv d v tids (split out) (gc_of_log log) [] (dead_ids v) nid
+                        (ptrs log) [] (ptrs out ++ tptrs R) []).
+  - exact I.
+  - exact IB.
+  - apply (SP out).
+  - apply (SP out).
+  - intros t e Ht He. pose proof (split_ok_in _ _ _ _ _ SP Ht He) as Ho.
+    destruct (cstream_replace_keeps_seq _ _ _ _ _ _ HR e Ho) as [Hl|(e0 & t0 & v0 & _ & _ & Hf & ->)].
+    + destruct (merge_input_in _ _ _ Hl) as (t' & Ht' & He'). apply (bi_wf _ _ I t' e Ht' He').
+    + apply wf_ind_not_ind. cbn [ty]. apply (FP e0 t0 v0 Hf).
+  - exact PV.
+  - cbn [app]. rewrite (split_ok_tptrs _ _ _ SP). apply Permutation_refl.
+  - constructor.
+  - intros bf [].
+  - intros p [].
+  - constructor.
+  - intros bf fr [].
+  - intros f. apply gtot_of_log.
+  - intros f Hf. eapply dead_ids_below; eauto.
+  - intros p Hp Hd. apply in_dead_ids in Hd. destruct Hd as (bf & HI & DD & E).
+    apply (dead_no_ptr d v bf p I POS HI DD); [|now symmetry].
+    eapply Permutation_in; [apply Permutation_sym; exact PV|]. apply in_or_app. right. exact Hp.
+  - intros p [].
+Qed.
+
+(** * 12. Statistics are exact; dead iff unreferenced; when files leave the version *)
+
+Lemma sumN_ext_in {A} (g h : A -> N) l :
+  (forall x, In x l -> g x = h x) -> sumN (map g l) = sumN (map h l).
+Proof.
+  induction l as [|x l IH]; intros H; [reflexivity|]. cbn [map sumN fold_right].
+  fold (sumN (map g l)) (sumN (map h l)). rewrite (H x (or_introl eq_refl)), IH; [reflexivity|].
+  intros y Hy. apply H. now right.
+Qed.
+
+Lemma sumN_cons x l : sumN (x :: l) = x + sumN l.
+Proof. reflexivity. Qed.
+
+Lemma sum_upd (blobs : list blobfile) k a (h : N -> N) :
+  NoDup (map bf_id blobs) -> In k (map bf_id blobs) -> h k = 0 ->
+  sumN (map (fun bf => if k =? bf_id bf then a else h (bf_id bf)) blobs)
+  = a + sumN (map (fun bf => h (bf_id bf)) blobs).
+Proof.
+  induction blobs as [|bf bs IH]; intros ND HI H0; [contradiction|].
+  cbn [map] in ND, HI. inversion ND as [|? ? NI ND']; subst. cbn [map]. rewrite !sumN_cons.
+  destruct (k =? bf_id bf) eqn:E.
+  - apply N.eqb_eq in E. subst k. rewrite H0.
+    rewrite (sumN_ext_in _ (fun b => h (bf_id b))); [lia|].
+    intros b Hb. destruct (bf_id bf =? bf_id b) eqn:E2; [|reflexivity].
+    apply N.eqb_eq in E2. exfalso. apply NI. rewrite E2. now apply in_map.
+  - apply N.eqb_neq in E. destruct HI as [HI|HI]; [congruence|].
+    rewrite (IH ND' HI H0). lia.
+Qed.
+
+Lemma sum_gc_blobs m : forall blobs,
+  NoDup (map fst m) -> NoDup (map bf_id blobs) ->
+  (forall k, In k (map fst m) -> In k (map bf_id blobs)) ->
+  stale_bytes m = sumN (map (fun bf => g_disk (gc_get m (bf_id bf))) blobs).
+Proof.
+  unfold stale_bytes. induction m as [|[k x] m IH]; intros blobs NDm NDb SUB.
+  - cbn [map sumN fold_right]. induction blobs as [|b bs IHb]; [reflexivity|].
+    cbn [map] in *. rewrite sumN_cons. inversion NDb; subst. rewrite <- IHb; auto.
+    intros k [].
+  - cbn [map fst snd] in *. inversion NDm as [|? ? NI NDm']; subst. rewrite sumN_cons.
+    rewrite (IH blobs NDm' NDb) by (intros j Hj; apply SUB; now right).
+    rewrite <- (sum_upd blobs k (g_disk x) (fun f => g_disk (gc_get m f)) NDb).
+    + apply sumN_ext_in. intros bf _. unfold gc_get. cbn [gc_find].
+      destruct (k =? bf_id bf); reflexivity.
+    + apply SUB. now left.
+    + now rewrite gc_get_notin.
+Qed.
+
+(** [FragmentationMap::stale_bytes] is the on-disk size of the unreferenced blobs of the
+    version, provided the map has no entries for files outside the version *)
+Theorem stale_bytes_exact v :
+  BInv v -> gc_pruned v ->
+  stale_bytes (b_gc v) = sumN (map (fun bf => g_disk (garbage_of v (bf_id bf))) (b_blobs v)).
+Proof.
+  intros I PR. rewrite (sum_gc_blobs (b_gc v) (b_blobs v) (bi_gkeys _ _ I) (bi_fids _ _ I) PR).
+  apply sumN_ext_in. intros bf HI. destruct (bi_gc _ _ I bf HI) as (_ & _ & C). now apply C.
+Qed.
+
+(** ... and in terms of blobs *)
+Lemma garbage_disk v bf :
+  NoDup (map bf_id (b_blobs v)) -> In bf (b_blobs v) ->
+  g_disk (garbage_of v (bf_id bf)) = sumN (map fr_disk (garb (vptrs v) bf)).
+Proof. intros ND HI. rewrite (garbage_of_in v bf ND HI). apply gsum_disk. Qed.
+
+(** [BlobFile::is_dead] holds exactly when no table entry points into the file
+    (given all blobs have non-empty values) *)
+Theorem is_dead_iff d v bf :
+  BInvG d v -> frames_pos (b_blobs v) -> In bf (b_blobs v) ->
+  (is_dead (b_gc v) bf = true <-> forall p, In p (vptrs v) -> pf p <> bf_id bf).
+Proof.
+  intros I POS HI. split.
+  - intros DD p Hp. eapply dead_no_ptr; eauto.
+  - intros H. apply (BInv_is_dead d v bf I POS HI). intros fr _. now apply pointed_other.
+Qed.
+
+(** ** when files leave the version *)
+
+Lemma blob_merge_standard_blobs W evict flt tids split v :
+  tids_known tids v = true ->
+  b_blobs (blob_merge_standard W evict flt tids split v)
+  = filter (fun bf => negb (memN (bf_id bf) (dead_ids v))) (b_blobs v).
+Proof.
+  intros KN. unfold blob_merge_standard. rewrite KN. cbn [negb].
+  destruct (run_stream _ _ _ _) as [out log]. now rewrite with_merge_blobs, app_nil_r.
+Qed.
+
+(** the code drops a dead file at the next merge: a file stays iff it is not dead by the
+    statistics of the version the merge starts from, iff some pointer of that version
+    points into it *)
+Theorem blob_merge_standard_keeps_iff d W evict flt tids split v bf :
+  BInvG d v -> frames_pos (b_blobs v) -> tids_known tids v = true -> In bf (b_blobs v) ->
+  (In bf (b_blobs (blob_merge_standard W evict flt tids split v)) <->
+   exists p, In p (vptrs v) /\ pf p = bf_id bf).
+Proof.
+  intros I POS KN HI. rewrite (blob_merge_standard_blobs _ _ _ _ _ _ KN), filter_In.
+  pose proof (is_dead_iff d v bf I POS HI) as DI.
+  assert (In (bf_id bf) (dead_ids v) <-> is_dead (b_gc v) bf = true) as DID.
+  { rewrite in_dead_ids. split.
+    - intros (b & Hb & DD & E).
+      assert (b = bf) as ->; [|exact DD].
+      pose proof (find_file_in _ _ (bi_fids _ _ I) Hb) as F1.
+      pose proof (find_file_in _ _ (bi_fids _ _ I) HI) as F2. rewrite E in F1. congruence.
+    - intros DD. exists bf. auto. }
+  split.
+  - intros [_ ND]. apply negb_true_iff, memN_false in ND.
+    destruct (existsb (fun p => pf p =? bf_id bf) (vptrs v)) eqn:EX.
+    + apply existsb_exists in EX. destruct EX as (p & Hp & E). apply N.eqb_eq in E. eauto.
+    + exfalso. apply ND, DID, DI. intros p Hp E.
+      assert (existsb (fun p => pf p =? bf_id bf) (vptrs v) = true); [|congruence].
+      apply existsb_exists. exists p. split; [exact Hp | now apply N.eqb_eq].
+  - intros (p & Hp & E). split; [exact HI|]. apply negb_true_iff, memN_false.
+    intros C. apply DID in C. apply (proj1 DI C p Hp E).
+Qed.
+
+(** a file that is dead in [v] is gone after the next merge on [v] (no invariant needed) *)
+Theorem dead_removed_by_merge W evict flt tids split v bf :
+  tids_known tids v = true -> In bf (b_blobs v) -> is_dead (b_gc v) bf = true ->
+  ~ In (bf_id bf) (map bf_id (b_blobs (blob_merge_standard W evict flt tids split v))).
+Proof.
+  intros KN HI DD C. rewrite (blob_merge_standard_blobs _ _ _ _ _ _ KN) in C.
+  apply in_map_iff in C. destruct C as (b & E & Hb). apply filter_In in Hb.
+  destruct Hb as [_ ND]. apply negb_true_iff, memN_false in ND. apply ND.
+  rewrite E. apply in_dead_ids. exists bf. auto.
+Qed.
+
+(** dropping tables removes files at once: a file stays iff a remaining table points into it *)
+Theorem blob_drop_tables_keeps_iff d tids v bf :
+  BInvG d v -> frames_pos (b_blobs v) ->
+  tids_known tids v = true -> sel_tables tids (b_tables v) <> [] -> In bf (b_blobs v) ->
+  (In bf (b_blobs (blob_drop_tables tids v)) <->
+   exists p, In p (vptrs (blob_drop_tables tids v)) /\ pf p = bf_id bf).
+Proof.
+  intros I POS KN NE HI. split.
+  - apply (blob_drop_tables_no_dead d tids v I POS KN NE).
+  - intros (p & Hp & E). pose proof (blob_drop_tables_inv d tids v I POS) as I'.
+    pose proof (presolve_has_file _ _ (bi_res _ _ I' p Hp)) as HF.
+    apply in_map_iff in HF. destruct HF as (b & Eb & Hb).
+    assert (In b (b_blobs v)) as Hb'.
+    { revert Hb. unfold blob_drop_tables. destruct (negb (tids_known tids v)); [auto|].
+      destruct (is_nil _); [auto|]. cbn [b_blobs]. intros Hb. apply filter_In in Hb. tauto. }
+    assert (b = bf) as <-; [|exact Hb].
+    pose proof (find_file_in _ _ (bi_fids _ _ I) Hb') as F1.
+    pose proof (find_file_in _ _ (bi_fids _ _ I) HI) as F2.
+    rewrite Eb, E in F1. congruence.
+Qed.
+
+Lemma drop_vptrs_incl tids v p :
+  In p (vptrs (blob_drop_tables tids v)) -> In p (vptrs v).
+Proof.
+  unfold blob_drop_tables. destruct (negb (tids_known tids v)); [auto|].
+  destruct (is_nil _); [auto|]. rewrite !vptrs_tptrs. cbn [b_tables]. intros H.
+  apply in_tptrs in H. destruct H as (t & Ht & Hp). apply in_tptrs. exists t.
+  split; [eapply in_rest_tables; eauto | exact Hp].
+Qed.
+
+(** a file that is dead in [v] is gone after the next (non-trivial) drop on [v] *)
+Theorem dead_removed_by_drop d tids v bf :
+  BInvG d v -> frames_pos (b_blobs v) ->
+  tids_known tids v = true -> sel_tables tids (b_tables v) <> [] ->
+  In bf (b_blobs v) -> is_dead (b_gc v) bf = true ->
+  ~ In bf (b_blobs (blob_drop_tables tids v)).
+Proof.
+  intros I POS KN NE HI DD C.
+  apply (blob_drop_tables_keeps_iff d tids v bf I POS KN NE HI) in C.
+  destruct C as (p & Hp & E). apply drop_vptrs_incl in Hp.
+  apply (dead_no_ptr d v bf p I POS HI DD Hp E).
+Qed.
+
+(** ** side invariants: id bound, non-empty values, pruned statistics *)
+
+Lemma with_merge_aux v tids newtabs diff newfiles drops nid nid' :
+  ids_below nid v -> nid <= nid' -> (forall bf, In bf newfiles -> bf_id bf < nid') ->
+  let v' := with_merge v tids newtabs diff newfiles drops in
+  ids_below nid' v' /\
+  (frames_pos (b_blobs v) -> frames_pos newfiles -> frames_pos (b_blobs v')) /\
+  (gc_pruned v -> gc_pruned v') /\
+  (diff <> [] \/ drops <> [] -> gc_pruned v').
+Proof.
+  intros [B1 B2] LE NB v'.
+  assert (forall bf, In bf (b_blobs v') -> In bf (b_blobs v) \/ In bf newfiles) as SUB.
+  { intros bf HI. unfold v' in HI. rewrite with_merge_blobs in HI. apply filter_In in HI.
+    destruct HI as [HI _]. now apply in_app_or in HI. }
+  assert (forall bf, In bf (b_blobs v') -> bf_id bf < nid') as BL.
+  { intros bf HI. destruct (SUB bf HI) as [H|H]; [specialize (B1 bf H); lia | auto]. }
+  assert (negb (is_nil diff) || negb (is_nil drops) = true ->
+          forall k, In k (map fst (b_gc v')) -> In k (map bf_id (b_blobs v'))) as PR.
+  { intros C k Hk. unfold v', with_merge in Hk |- *. cbn [b_gc b_blobs] in Hk |- *.
+    rewrite C in Hk. apply keys_prune in Hk. destruct Hk as [_ Hk]. now apply has_file_In in Hk. }
+  split; [|split; [|split]].
+  - split; [exact BL|]. intros k Hk.
+    destruct (negb (is_nil diff) || negb (is_nil drops)) eqn:C.
+    + specialize (PR eq_refl k Hk). apply in_map_iff in PR. destruct PR as (bf & <- & HI). auto.
+    + unfold v', with_merge in Hk. cbn [b_gc] in Hk. rewrite C in Hk. specialize (B2 k Hk). lia.
+  - intros P1 P2 bf fr Hb Hf. destruct (SUB bf Hb); [eapply P1 | eapply P2]; eauto.
+  - intros GP. destruct (negb (is_nil diff) || negb (is_nil drops)) eqn:C; [exact (PR eq_refl)|].
+    intros k Hk. pose proof C as C'. apply orb_false_iff in C'. destruct C' as [C1 C2].
+    apply negb_false_iff, is_nil_spec in C1, C2. subst diff drops.
+    unfold v', with_merge in Hk |- *. cbn [b_gc b_blobs is_nil negb orb] in Hk |- *.
+    specialize (GP k Hk). destruct (negb (is_nil newfiles)).
+    + cbn [orb]. rewrite filter_all_true by reflexivity. rewrite map_app. apply in_or_app. now left.
+    + exact GP.
+  - intros H. unfold gc_pruned. apply PR. destruct H as [H|H].
+    + destruct diff; [congruence | reflexivity].
+    + destruct drops; [congruence|]. cbn. apply orb_true_r.
+Qed.
+
+Theorem blob_merge_standard_aux W evict flt tids split v nid :
+  ids_below nid v ->
+  let v' := blob_merge_standard W evict flt tids split v in
+  ids_below nid v' /\ (frames_pos (b_blobs v) -> frames_pos (b_blobs v')) /\
+  (gc_pruned v -> gc_pruned v').
+Proof.
+  intros IB v'. unfold v', blob_merge_standard.
+  destruct (negb (tids_known tids v)); [auto|].
+  destruct (run_stream _ _ _ _) as [out log].
+  destruct (with_merge_aux v tids (split out) (gc_of_log log) [] (dead_ids v) nid nid IB (N.le_refl _))
+    as (A & B & C & _); [intros bf []|].
+  split; [exact A|]. split; [|exact C]. intros P. apply B; [exact P|]. intros bf fr [].
+Qed.
+
+Lemma keys_fold_nodisk lk : forall m k,
+  In k (map fst (fold_left (fun acc kx => gc_add_nodisk acc (fst kx) (snd kx)) lk m)) <->
+  In k (map fst lk) \/ In k (map fst m).
+Proof.
+  induction lk as [|[f x] lk IH]; intros m k; cbn [fold_left map fst In]; [tauto|].
+  rewrite IH. unfold gc_add_nodisk. rewrite keys_add_with. cbn [fst snd]. split.
+  - intros [H|[->|H]]; auto.
+  - intros [[->|H]|H]; auto.
+Qed.
+
+Lemma keys_drop_fold (tabs : list (N * list entry)) : forall m k,
+  In k (map fst (fold_left (fun acc t => add_linked acc (snd t)) tabs m)) ->
+  In k (map fst m) \/ exists p, In p (tptrs tabs) /\ pf p = k.
+Proof.
+  induction tabs as [|t tabs IH]; intros m k H; cbn [fold_left] in H; [now left|].
+  destruct (IH _ _ H) as [H1|(p & Hp & E)].
+  - unfold add_linked in H1. apply keys_fold_nodisk in H1. destruct H1 as [H1|H1]; [|now left].
+    unfold linked_of in H1. apply keys_of_log in H1. destruct H1 as (p & Hp & E).
+    right. exists p. split; [|exact E]. change (tptrs (t :: tabs)) with (ptrs (snd t) ++ tptrs tabs).
+    apply in_or_app. now left.
+  - right. exists p. split; [|exact E]. change (tptrs (t :: tabs)) with (ptrs (snd t) ++ tptrs tabs).
+    apply in_or_app. now right.
+Qed.
+
+Theorem blob_drop_tables_aux d tids v nid :
+  BInvG d v -> ids_below nid v ->
+  let v' := blob_drop_tables tids v in
+  ids_below nid v' /\ (frames_pos (b_blobs v) -> frames_pos (b_blobs v')).
+Proof.
+  intros I [B1 B2] v'. unfold v', blob_drop_tables.
+  destruct (negb (tids_known tids v)); [split; [split|]; auto|].
+  destruct (is_nil _); [split; [split|]; auto|]. cbn [b_blobs b_gc]. split; [split|].
+  - intros bf HI. apply filter_In in HI. apply B1. tauto.
+  - intros k Hk. apply keys_drop_fold in Hk. destruct Hk as [Hk|(p & Hp & <-)]; [auto|].
+    assert (In p (vptrs v)) as Hv.
+    { rewrite vptrs_tptrs. apply in_tptrs in Hp. destruct Hp as (t & Ht & Hp). apply in_tptrs.
+      exists t. split; [eapply in_sel_tables; eauto | exact Hp]. }
+    pose proof (presolve_has_file _ _ (bi_res _ _ I p Hv)) as HF. apply in_map_iff in HF.
+    destruct HF as (bf & <- & HI). auto.
+  - intros P bf fr Hb Hf. apply filter_In in Hb. eapply P; [apply Hb | exact Hf].
+Qed.
+
+(** * 10. Relocation *)
+
+Definition keep_ptr (rw : list N) (p : ptr) : bool := negb (memN (pf p) rw).
+
+Lemma relocate_inv Fp target blobs rw lo : forall items w P out' w',
+  WInv Fp lo w P ->
+  (forall p, In p (ptrs items) -> memN (pf p) rw = true -> presolve blobs p = true) ->
+  (forall f o fr, find_frame blobs f o = Some fr ->
+     forall k s off, Fp (mkFr k s off (fr_val fr) (fr_disk fr))) ->
+  relocate target blobs rw w items = (out', w') ->
+  (forall e, In e out' -> In e items \/ wf_ind e = true) /\
+  exists Nn, WInv Fp lo w' (Nn ++ P) /\
+             Permutation (ptrs out') (Nn ++ filter (keep_ptr rw) (ptrs items)).
+Proof.
+  induction items as [|e r IH]; intros w P out' w' WI RS FPb HR; cbn [relocate] in HR.
+  - inversion HR; subst. split; [intros e []|]. exists []. split; [exact WI | apply Permutation_refl].
+  - assert (forall q, In q (ptrs r) -> memN (pf q) rw = true -> presolve blobs q = true) as RS'.
+    { intros q Hq. apply RS. rewrite ptrs_cons. destruct (ptr_of e); [now right | exact Hq]. }
+    (* the pass-through case, used three times *)
+    assert (forall o w2, relocate target blobs rw w r = (o, w2) -> (e :: o, w2) = (out', w') ->
+            (forall p, ptr_of e = Some p -> keep_ptr rw p = true) ->
+            (forall x, In x out' -> In x (e :: r) \/ wf_ind x = true) /\
+            exists Nn, WInv Fp lo w' (Nn ++ P) /\
+               Permutation (ptrs out') (Nn ++ filter (keep_ptr rw) (ptrs (e :: r)))) as PASS.
+    { intros o w2 HR2 EQ KP. inversion EQ; subst.
+      destruct (IH w P o w' WI RS' FPb HR2) as (WF & Nn & WI' & PP). split.
+      - intros x [<-|Hx]; [left; now left|]. destruct (WF x Hx); [left; now right | now right].
+      - exists Nn. split; [exact WI'|]. rewrite !ptrs_cons. destruct (ptr_of e) as [p|]; [|exact PP].
+        cbn [filter]. rewrite (KP p eq_refl). now apply Permutation_cons_app. }
+    destruct (ptr_of e) as [p|] eqn:PE.
+    2:{ destruct (relocate target blobs rw w r) as [o w2] eqn:HR2.
+        apply (PASS o w2 eq_refl HR). intros q C. discriminate. }
+    destruct (memN (pf p) rw) eqn:MR.
+    2:{ destruct (relocate target blobs rw w r) as [o w2] eqn:HR2.
+        apply (PASS o w2 eq_refl HR). intros q C. inversion C; subst. unfold keep_ptr. now rewrite MR. }
+    assert (presolve blobs p = true) as PR.
+    { apply RS; [|exact MR]. rewrite ptrs_cons, PE. now left. }
+    pose proof PR as PR'. unfold presolve in PR'.
+    destruct (find_frame blobs (pf p) (po p)) as [fr|] eqn:FF; [|discriminate].
+    apply andb_true_iff in PR'. destruct PR' as [PR' _]. apply andb_true_iff in PR'.
+    destruct PR' as [_ SZ]. apply N.eqb_eq in SZ.
+    destruct (bw_write target w (ukey e) (seq e) (fr_val fr) (fr_disk fr)) as [w1 h] eqn:HW.
+    destruct (relocate target blobs rw w1 r) as [o w2] eqn:HR2. inversion HR; subst.
+    destruct (bw_write_inv Fp lo target w P _ _ _ _ w1 h WI HW) as (Eh & _ & _ & WI1).
+    { eapply FPb. exact FF. }
+    destruct (IH w1 _ o w' WI1 RS' FPb HR2) as (WF & Nn & WI' & PP).
+    split.
+    + intros x [<-|Hx]; [now right|]. destruct (WF x Hx); [left; now right | now right].
+    + exists (Nn ++ [mkP (ukey e) (fst h) (snd h) (fr_disk fr) (lenN (fr_val fr))]). split.
+      * now rewrite <- app_assoc.
+      * rewrite !ptrs_cons, ptr_of_mk_ind, PE. cbn [filter]. unfold keep_ptr at 1. rewrite MR. cbn [negb].
+        rewrite <- SZ, <- app_assoc. cbn [app]. now apply Permutation_cons_app.
+Qed.
+
+Lemma find_frame_In blobs f o fr :
+  find_frame blobs f o = Some fr -> exists bf, In bf blobs /\ bf_id bf = f /\ In fr (frames bf) /\ fr_off fr = o.
+Proof.
+  unfold find_frame. destruct (find_file blobs f) as [bf|] eqn:F; [|discriminate].
+  intros H. apply find_frame_in in H. apply find_file_some in F. exists bf. tauto.
+Qed.
+
+(** the eligibility condition of worker.rs: pick_blob_files_to_rewrite -- the files are in
+    the version and no table outside the compaction points into them *)
+Definition reloc_ok (tids rw : list N) (v : bversion) : Prop :=
+  (forall f, In f rw -> In f (map bf_id (b_blobs v))) /\
+  (forall p, In p (tptrs (rest_tables tids (b_tables v))) -> ~ In (pf p) rw).
+
+Definition pos_val (fr : frame) : Prop := 0 < lenN (fr_val fr).
+
+Theorem blob_merge_relocating_inv d W evict flt tids rw target nid split v :
+  BInvG d v -> frames_pos (b_blobs v) -> ids_below nid v -> flt_plain flt ->
+  split_ok split (b_tables v) -> reloc_ok tids rw v ->
+  let r := blob_merge_relocating W evict flt tids rw target nid split v in
+  BInvG d (fst r) /\ ids_below (snd r) (fst r) /\ nid <= snd r /\ frames_pos (b_blobs (fst r)) /\
+  (gc_pruned v -> gc_pruned (fst r)).
+Proof.
+  intros I POS IB FP SP [RW1 RW2] r. unfold r, blob_merge_relocating.
+  destruct (negb (tids_known tids v)); [cbn [fst snd]; repeat split; auto; try apply IB; lia|].
+  destruct (run_stream W evict flt (merge_input tids v)) as [out log] eqn:HR.
+  destruct (relocate target (b_blobs v) rw (bw_new nid) out) as [out' w] eqn:HL.
+  unfold bw_finish. cbn [fst snd].
+  set (R := rest_tables tids (b_tables v)).
+  pose proof (stream_ptrs _ _ _ _ _ _ (flt_plain_noptr _ FP) HR) as PS.
+  assert (Permutation (vptrs v) (ptrs log ++ ptrs out ++ tptrs R)) as PV0.
+  { eapply perm_trans; [apply (vptrs_split tids v)|]. fold R.
+    eapply perm_trans; [apply Permutation_app_tail; apply Permutation_sym; apply merge_input_ptrs|].
+    eapply perm_trans; [apply Permutation_app_tail; exact PS|].
+    rewrite <- app_assoc. apply Permutation_app_swap_app. }
+  assert (forall p, In p (ptrs out) -> In p (vptrs v)) as OV.
+  { intros p Hp. eapply Permutation_in; [apply Permutation_sym; exact PV0|].
+    apply in_or_app. right. apply in_or_app. now left. }
+  assert (forall e, In e out -> wf_ind e = true) as WFo.
+  { intros e Ho.
+    destruct (cstream_replace_keeps_seq _ _ _ _ _ _ HR e Ho) as [Hl|(e0 & t0 & v0 & _ & _ & Hf & ->)].
+    - destruct (merge_input_in _ _ _ Hl) as (t' & Ht' & He'). apply (bi_wf _ _ I t' e Ht' He').
+    - apply wf_ind_not_ind. cbn [ty]. apply (FP e0 t0 v0 Hf). }
+  destruct (relocate_inv pos_val target (b_blobs v) rw nid out (bw_new nid) [] out' w
+              (WInv_new _ nid)) as (WF & Nn & WI & PP); [| |exact HL|].
+  { intros p Hp _. apply (bi_res _ _ I p (OV p Hp)). }
+  { intros f o fr FF k s off. unfold pos_val. cbn [fr_val].
+    destruct (find_frame_In _ _ _ _ FF) as (bf & Hb & _ & Hf & _). eapply POS; eauto. }
+  rewrite app_nil_r in WI. destruct WI as [W1 W2 W3 W4 W5 W6 W7 W8 W9].
+  set (M := filter (fun p => negb (keep_ptr rw p)) (ptrs out)).
+  set (K1 := filter (keep_ptr rw) (ptrs out)) in *.
+  assert (Permutation (ptrs out) (M ++ K1)) as PO.
+  { eapply perm_trans; [apply (filter_partition_perm (keep_ptr rw))|]. apply Permutation_app_comm. }
+  assert (Permutation (vptrs v) (ptrs log ++ M ++ (K1 ++ tptrs R))) as PV.
+  { eapply perm_trans; [exact PV0|]. apply Permutation_app_head.
+    rewrite app_assoc. apply Permutation_app_tail. exact PO. }
+  assert (forall p, In p (K1 ++ tptrs R) -> In p (vptrs v)) as KV.
+  { intros p Hp. eapply Permutation_in; [apply Permutation_sym; exact PV|].
+    apply in_or_app. right. apply in_or_app. now right. }
+  split; [|split; [|split; [|split]]].
+  - apply (with_merge_inv d v tids (split out') (gc_of_log log) (bw_files w) (rw ++ dead_ids v) nid
+                          (ptrs log) M (K1 ++ tptrs R) Nn).
+    + exact I.
+    + exact IB.
+    + apply (SP out').
+    + apply (SP out').
+    + intros t e Ht He. pose proof (split_ok_in _ _ _ _ _ SP Ht He) as Ho.
+      destruct (WF e Ho) as [H|H]; [apply WFo; exact H | exact H].
+    + exact PV.
+    + rewrite (split_ok_tptrs _ _ _ SP). rewrite app_assoc. apply Permutation_app_tail. exact PP.
+    + exact W3.
+    + intros bf HI. split; [apply (W2 bf HI) | apply (W4 bf HI)].
+    + exact W6.
+    + exact W7.
+    + exact W8.
+    + intros f. apply gtot_of_log.
+    + intros f Hf. apply in_app_or in Hf. destruct Hf as [Hf|Hf].
+      * specialize (RW1 f Hf). apply in_map_iff in RW1. destruct RW1 as (bf & <- & HI). now apply IB.
+      * eapply dead_ids_below; eauto.
+    + intros p Hp Hd. apply in_app_or in Hd. destruct Hd as [Hd|Hd].
+      * apply in_app_or in Hp. destruct Hp as [Hp|Hp].
+        -- unfold K1 in Hp. apply filter_In in Hp. destruct Hp as [_ KP]. unfold keep_ptr in KP.
+           apply negb_true_iff, memN_false in KP. contradiction.
+        -- apply (RW2 p Hp Hd).
+      * apply in_dead_ids in Hd. destruct Hd as (bf & HI & DD & E).
+        apply (dead_no_ptr d v bf p I POS HI DD (KV p Hp)). now symmetry.
+    + intros p Hp. unfold M in Hp. apply filter_In in Hp. destruct Hp as [_ KP].
+      unfold keep_ptr in KP. rewrite negb_involutive in KP. apply memN_In in KP.
+      apply in_or_app. now left.
+  - destruct (with_merge_aux v tids (split out') (gc_of_log log) (bw_files w) (rw ++ dead_ids v)
+                nid (bw_next w) IB) as (A & _); [lia | | exact A].
+    intros bf HI. specialize (W2 bf HI). lia.
+  - lia.
+  - destruct (with_merge_aux v tids (split out') (gc_of_log log) (bw_files w) (rw ++ dead_ids v)
+                nid (bw_next w) IB) as (_ & B & _); [lia | |].
+    + intros bf HI. specialize (W2 bf HI). lia.
+    + apply B; [exact POS|]. intros bf fr Hb Hf. apply (W9 bf fr Hb Hf).
+  - destruct (with_merge_aux v tids (split out') (gc_of_log log) (bw_files w) (rw ++ dead_ids v)
+                nid (bw_next w) IB) as (_ & _ & C & _); [lia | | exact C].
+    intros bf HI. specialize (W2 bf HI). lia.
+Qed.
